@@ -343,7 +343,15 @@ func ids(vs []val) []int {
 
 // ---- one program ----------------------------------------------------------------------------
 
-const settle = 3 * time.Second
+// settle bounds the wait for a stream to deal with a step; after the first miss the process stops being patient
+// (a server that drops changes would otherwise cost settle per step), after maxMisses it stops running programs.
+const (
+	settle    = 10 * time.Second
+	impatient = 200 * time.Millisecond
+	maxMisses = 8
+)
+
+var misses int
 
 type session struct {
 	srv      *bookingpb.ModelServer
@@ -415,6 +423,9 @@ func (se *session) run(caseIdx int, p prog, out *hx.Out) {
 	}
 	se.srv = bookingpb.NewModelServer(bookingpb.NewModel(bookingpb.WithInitialBooking(initial...)))
 	se.patience = settle
+	if misses > 0 {
+		se.patience = impatient
+	}
 	defer func() {
 		for _, st := range se.streams {
 			if !st.returned {
@@ -446,12 +457,18 @@ func (se *session) run(caseIdx int, p prog, out *hx.Out) {
 		case "open":
 			st, ok := se.open(c)
 			openedNow = st
-			o.Timeout = !ok
+			if !ok {
+				o.Timeout = true
+				misses++
+				se.patience = impatient
+			}
 		case "close":
 			for i, st := range se.streams {
 				if st.sid == c.Sid {
 					if !se.closeStream(st) {
 						o.Timeout = true
+						misses++
+						se.patience = impatient
 					}
 					se.streams = append(se.streams[:i:i], se.streams[i+1:]...)
 					break
@@ -507,7 +524,8 @@ func (se *session) run(caseIdx int, p prog, out *hx.Out) {
 				}, se.patience)
 				if !done {
 					o.Timeout = true
-					se.patience = 100 * time.Millisecond // do not spend the settle time again and again in this program
+					misses++
+					se.patience = impatient
 				}
 			}
 		}
@@ -554,6 +572,9 @@ func main() {
 	out := hx.NewOut(hx.Arg("-out", "obs.ndjson"))
 	defer out.Close()
 	for i, p := range cases {
+		if misses >= maxMisses {
+			break // the lines written so far carry the evidence; the driver sees that programs are missing
+		}
 		(&session{}).run(i, p, out)
 	}
 }
